@@ -15,8 +15,10 @@ RULE = ("random operation sequences (5..60 ops) over a pool {base index, views, 
         "unmodified. Non-trivial = a sequence with a select on a view and a repeated query after it. Distinct by hash.")
 TRUSTED = B.TRUSTED + ["pickle round trips are mapped to copy in the state machine (outputs do not depend on which)"]
 ASSUMPTIONS = B.ASSUMPTIONS
-EXPLANATION = ("state machine with the three caches and the filter reset (View/Purity.v); theorem: under the cache invariant "
-               "every output equals the history-free answer (Props/C07.v).")
+EXPLANATION = ("Theorems (Props/C07.v): cache invariant preserved by every operation; under it every output equals the "
+               "history-free answer (generic form with two postings premises; premise-free C07_indexed_* for indexed "
+               "corpora on the boolean domain ops_in_domain). The check runs the state machine against the real objects "
+               "op by op and re-asks queries under other histories.")
 
 
 def gen_ops(rng, docs, voc, nd, length):
